@@ -34,6 +34,49 @@ def lit(old, new, count=1):
     return f
 
 
+FWD_OLD = '''    {
+      using coro_type = return_of_t<Sig>;
+      using promise_type = typename std::coroutine_traits<coro_type>::promise_type;
+      using value_type = coro_value_type_t<coro_type>;
+      if constexpr (requires {std::declval<promise_type&>().yield_value(std::declval<value_type>());})
+      {
+        for (auto & e : *yields)
+        {
+          co_yield e.expr(params);
+        }
+      }
+      co_return func(params);
+    }
+  private:'''
+
+
+def fwd(listparam):
+    """co_return_handler_t::call forwards to a private static coroutine taking the yield list as `listparam`"""
+    return '''    {
+      return run(func, yields, params);
+    }
+  private:
+    static
+    return_of_t<Sig>
+    run(
+      T& f,
+      %s exprs,
+      call_params_type_t<Sig>& params)
+    {
+      using coro_type = return_of_t<Sig>;
+      using promise_type = typename std::coroutine_traits<coro_type>::promise_type;
+      using value_type = coro_value_type_t<coro_type>;
+      if constexpr (requires {std::declval<promise_type&>().yield_value(std::declval<value_type>());})
+      {
+        for (auto & e : *exprs)
+        {
+          co_yield e.expr(params);
+        }
+      }
+      co_return f(params);
+    }''' % listparam
+
+
 # (name, file, edit, checks, rule prefixes expected among the reports, corpus file that must still compile)
 MUTANTS = [
     ("M01-dispatch-searches-saturated", M, lit("auto i = find(e.active, param_value);", "auto i = find(e.saturated, param_value);"), ["C01"], ["C01.a"], "core"),
@@ -171,6 +214,12 @@ MUTANTS = [
         }
       }
       co_return func(params);"""), ["C20"], ["C20.b"], "coro"),
+    ("M90-actions-outside-try", M, lit('    try\n    {\n      ta.trace_params(param_value);\n      i->run_actions(param_value, e.saturated);\n      return i->return_value(ta, param_value);\n    }', '    ta.trace_params(param_value);\n    i->run_actions(param_value, e.saturated);\n    try\n    {\n      return i->return_value(ta, param_value);\n    }'), ["C17"], ["C17.b.exc.scope"], "core"),
+    ("M91-hexdump-lambda-char", M, lit("[&os, &byte_number](unsigned byte) {", "[&os, &byte_number](char byte) {"), ["C18"], ["C18.d.bytes"], "printing"),
+    ("M92-hexdump-span-short", M, lit("bytes(static_cast<uint8_t const*>(begin), size);", "bytes(static_cast<uint8_t const*>(begin), size - 1);"), ["C18"], ["C18.d"], "printing"),
+    ("M93-hexdump-signed-read", M, lit("mini_span<uint8_t const> bytes(static_cast<uint8_t const*>(begin), size);", "mini_span<signed char const> bytes(static_cast<signed char const*>(begin), size);"), ["C18"], ["C18.d.bytes"], "printing"),
+    ("M94-mini-span-end-short", M, lit("end_(address + size)", "end_(address + size - 1)"), ["C18"], ["C18.d"], "printing"),
+    ("M95-forwarded-coroutine-temporary-list", CO, lit('    {\n      using coro_type = return_of_t<Sig>;\n      using promise_type = typename std::coroutine_traits<coro_type>::promise_type;\n      using value_type = coro_value_type_t<coro_type>;\n      if constexpr (requires {std::declval<promise_type&>().yield_value(std::declval<value_type>());})\n      {\n        for (auto & e : *yields)\n        {\n          co_yield e.expr(params);\n        }\n      }\n      co_return func(params);\n    }\n  private:', '    {\n      return run(func, yields, params);\n    }\n  private:\n    static\n    return_of_t<Sig>\n    run(\n      T& f,\n      const std::shared_ptr<const yield_expr_list<Sig>>& exprs,\n      call_params_type_t<Sig>& params)\n    {\n      using coro_type = return_of_t<Sig>;\n      using promise_type = typename std::coroutine_traits<coro_type>::promise_type;\n      using value_type = coro_value_type_t<coro_type>;\n      if constexpr (requires {std::declval<promise_type&>().yield_value(std::declval<value_type>());})\n      {\n        for (auto & e : *exprs)\n        {\n          co_yield e.expr(params);\n        }\n      }\n      co_return f(params);\n    }'), ["C20"], ["C14.f"], "coro"),
 ]
 
 BENIGN = [
@@ -246,6 +295,10 @@ BENIGN = [
     }
     return ~0U;"""), ["C05", "C02"], "core"),
     ("B20-notify-retire-unconditional", L, lit("    if (sequences->is_satisfied())\n    {\n      sequences->retire_predecessors();\n    }", "    sequences->retire_predecessors();"), ["C05", "C13", "C06"], "core"),
+    ("B40-hexdump-counted-loop", M, lit('    mini_span<uint8_t const> bytes(static_cast<uint8_t const*>(begin), size);\n    size_t byte_number = 0;\n    std::for_each(bytes.begin(), bytes.end(),  [&os, &byte_number](unsigned byte) {\n      os << " 0x" << std::setw(2) << std::right << byte;\n      if ((byte_number & 0xf) == 0xf) os << \'\\n\';\n      ++byte_number;\n    });', '    auto const* bytes = static_cast<unsigned char const*>(begin);\n    for (size_t byte_number = 0; byte_number < size; ++byte_number)\n    {\n      unsigned const byte = bytes[byte_number];\n      os << " 0x" << std::setw(2) << std::right << byte;\n      if ((byte_number & 0xf) == 0xf) os << \'\\n\';\n    }'), ["C18"], "printing"),
+    ("B41-hexdump-lambda-int", M, lit("[&os, &byte_number](unsigned byte) {", "[&os, &byte_number](int byte) {"), ["C18"], "printing"),
+    ("B43-forwarded-coroutine-list-by-value", CO, lit(FWD_OLD, fwd("std::shared_ptr<yield_expr_list<Sig>>")), ["C20", "C14"], "coro"),
+    ("B42-trace-params-before-try", M, lit('    try\n    {\n      ta.trace_params(param_value);\n      i->run_actions(param_value, e.saturated);\n      return i->return_value(ta, param_value);\n    }', '    ta.trace_params(param_value);\n    try\n    {\n      i->run_actions(param_value, e.saturated);\n      return i->return_value(ta, param_value);\n    }'), ["C17", "C08", "C01"], "core"),
 ]
 
 
